@@ -57,7 +57,54 @@ def replay_c17_get_symmetry(spec):
     return {"reproduced": bool(bad), "note": "; ".join(map(str, bad)) or "registry behaves"}
 
 
+def replay_c13_threshold(spec):
+    """counterexample of the svd_truncated threshold contract: a block-diagonal matrix with exactly the
+    singular values of the model (split over two charge sectors), truncated by the real code; the kept
+    values are compared with the rule written from the property statement (oracles_linalg.kept_set)."""
+    import re
+    from fractions import Fraction
+
+    import numpy as np
+    import symmray as sr
+
+    from bounded.oracles_linalg import kept_set
+
+    w = spec.get("witness") or {}
+    if "n" not in w:
+        return {"reproduced": False, "note": "no witness values in the solver output"}
+    n = int(w["n"])
+    if not (1 <= n <= 6):
+        return {"reproduced": False, "note": f"the solver's counterexample has {n} singular values (no small one found)"}
+    fr = lambda v: float(Fraction(*v)) if isinstance(v, list) else float(v)  # noqa: E731
+    vals = [fr(v) for v in w["values_ascending"][:n]]
+    cutoff, mb = fr(w["cutoff"]), int(w["max_bond"])
+    mode = int(re.search(r"mode(\d)", spec["task"]).group(1))
+    if mb >= n or mb <= 0:
+        mb = -1
+    fails = []
+    for split in range(0, n + 1):
+        parts = {0: vals[:split], 1: vals[split:]}
+        parts = {c: v for c, v in parts.items() if v}
+        ix = sr.BlockIndex({c: len(v) for c, v in parts.items()}, dual=False)
+        x = sr.Z2Array(indices=(ix, ix.conj()), charge=0, blocks={(c, c): np.diag(np.array(v, dtype="float64")) for c, v in parts.items()})
+        try:
+            _, s, _ = sr.linalg.svd_truncated(x, cutoff=cutoff, cutoff_mode=mode, max_bond=mb, absorb=None)
+            got = sorted((float(t) for b in s.blocks.values() for t in np.asarray(b).ravel()), reverse=True)
+        except Exception as e:  # noqa: BLE001
+            fails.append({"split": split, "error": f"{type(e).__name__}: {e}"})
+            continue
+        k, tie = kept_set(vals, mode, cutoff, mb if mb > 0 else None)
+        want = sorted(vals, reverse=True)[:k]
+        if len(got) != k:
+            fails.append({"split": split, "kept": got, "rule_keeps": want, "tie_at_bond_limit": bool(tie)})
+    inp = {"singular_values": vals, "cutoff": cutoff, "cutoff_mode": mode, "max_bond": mb}
+    if fails:
+        return {"reproduced": True, "note": f"svd_truncated keeps {fails[0].get('kept', fails[0])} where the rule keeps {fails[0].get('rule_keeps')}", "input": inp, "failing": fails[:3]}
+    return {"reproduced": False, "note": "the real code keeps what the rule permits on the solver's values (floating point may differ from the real-number model)", "input": inp}
+
+
 REGISTRY = [
+    ("C13.svd_truncated.cutoff_threshold", replay_c13_threshold),
     ("C17.get_symmetry", replay_c17_get_symmetry),
     ("C17.", replay_c17_laws),
 ]
